@@ -1,0 +1,66 @@
+//go:build verif
+
+package regular
+
+// Contracts for the verification framework in /verif (comment-only file,
+// compiled only with -tags verif; see /verif/DESIGN.md).
+
+//@ import csr "github.com/theparanoids/ysshra/csr"
+//@ import gensign "github.com/theparanoids/ysshra/gensign"
+//@ import keyid "github.com/theparanoids/ysshra/keyid"
+
+//@ # ---------------------------------------------------------------- C01: proof of possession of the registered key
+//@ func lookupPubKeyFile(pubKeyDirPath, logName)
+//@   flag logged
+//@   let s0 = old(calls(os.Stat))
+//@   ensures [pub-file-preferred-then-bare-name] calls(os.Stat) == s0 + 2 && arg(os.Stat, s0, 0) == pathJoin2(pubKeyDirPath, logName + ".pub") &&
+//@     (ret(os.Stat, s0, 1) == nil ==> arg(os.Stat, s0 + 1, 0) == pathJoin2(pubKeyDirPath, logName + ".pub")) &&
+//@     (ret(os.Stat, s0, 1) != nil ==> arg(os.Stat, s0 + 1, 0) == pathJoin2(pubKeyDirPath, logName))
+//@   ensures err == nil ==> result0 == arg(os.Stat, s0 + 1, 0)
+//@   ensures err != nil <==> notExist(ret(os.Stat, s0 + 1, 1))
+//@   ensures err != nil ==> result0 == ""
+
+//@ func getPubKeyBytes(pubKeyDirPath, logName)
+//@   flag logged
+//@   let l0 = old(calls(lookupPubKeyFile))
+//@   let f0 = old(calls(os.ReadFile))
+//@   ensures calls(lookupPubKeyFile) == l0 + 1 && arg(lookupPubKeyFile, l0, 0) == pubKeyDirPath && arg(lookupPubKeyFile, l0, 1) == logName
+//@   ensures ret(lookupPubKeyFile, l0, 1) != nil ==> (err == ret(lookupPubKeyFile, l0, 1) && result0 == nil && calls(os.ReadFile) == f0)
+//@   ensures ret(lookupPubKeyFile, l0, 1) == nil ==> (calls(os.ReadFile) == f0 + 1 && arg(os.ReadFile, f0, 0) == ret(lookupPubKeyFile, l0, 0) &&
+//@     result0 == ret(os.ReadFile, f0, 0) && err == ret(os.ReadFile, f0, 1))
+
+//@ func (*Handler).challengePubKey(h, param)
+//@   flag logged
+//@   requires h != nil && h.conf != nil && h.agent != nil && param != nil
+//@   let g0 = old(calls(getPubKeyBytes))
+//@   let p0 = old(calls(ssh.ParseAuthorizedKey))
+//@   let r0 = old(calls(rand.Read))
+//@   let s0 = old(calls(Agent.Sign))
+//@   let v0 = old(calls(PublicKey.Verify))
+//@   ensures [registered-key-of-the-login-name] result == nil ==> (calls(getPubKeyBytes) == g0 + 1 && arg(getPubKeyBytes, g0, 0) == h.conf.PubKeyDir &&
+//@     arg(getPubKeyBytes, g0, 1) == param.LogName && ret(getPubKeyBytes, g0, 1) == nil &&
+//@     calls(ssh.ParseAuthorizedKey) == p0 + 1 && arg(ssh.ParseAuthorizedKey, p0, 0) == ret(getPubKeyBytes, g0, 0) && ret(ssh.ParseAuthorizedKey, p0, 4) == nil)
+//@   ensures [fresh-64-byte-challenge-signed-by-the-forwarded-agent] result == nil ==> (calls(rand.Read) == r0 + 1 && len(arg(rand.Read, r0, 0)) == 64 &&
+//@     fresh(arr(arg(rand.Read, r0, 0))) && ret(rand.Read, r0, 1) == nil &&
+//@     calls(Agent.Sign) == s0 + 1 && arg(Agent.Sign, s0, 0) == h.agent && arg(Agent.Sign, s0, 1) == ret(ssh.ParseAuthorizedKey, p0, 0) &&
+//@     arg(Agent.Sign, s0, 2) == arg(rand.Read, r0, 0) && ret(Agent.Sign, s0, 1) == nil)
+//@   ensures [signature-verified-under-the-registered-key-over-the-same-bytes] result == nil ==> (calls(PublicKey.Verify) == v0 + 1 &&
+//@     arg(PublicKey.Verify, v0, 0) == ret(ssh.ParseAuthorizedKey, p0, 0) && arg(PublicKey.Verify, v0, 1) == arg(rand.Read, r0, 0) &&
+//@     argc(PublicKey.Verify, v0, 1) == argc(Agent.Sign, s0, 2) && arg(PublicKey.Verify, v0, 2) == ret(Agent.Sign, s0, 0) && ret(PublicKey.Verify, v0, 0) == nil)
+//@   ensures [at-most-one-challenge] calls(rand.Read) <= r0 + 1 && calls(Agent.Sign) <= s0 + 1 && calls(PublicKey.Verify) <= v0 + 1
+//@   ensures [no-signature-no-success] (calls(PublicKey.Verify) == v0 || ret(PublicKey.Verify, v0, 0) != nil) ==> result != nil
+
+//@ func (*Handler).Name(h)
+//@   ensures result == "paranoids.regular"
+
+//@ func (*Handler).Authenticate(h, param)
+//@   requires h != nil && h.conf != nil && h.agent != nil
+//@   requires param != nil ==> param.Attrs != nil
+//@   let c0 = old(calls(challengePubKey))
+//@   ensures [only-after-proof-of-possession] result == nil ==> (param != nil && param.NamespacePolicy == "NONS" && !param.Attrs.HardKey &&
+//@     calls(challengePubKey) == c0 + 1 && arg(challengePubKey, c0, 0) == h && arg(challengePubKey, c0, 1) == param && ret(challengePubKey, c0, 0) == nil)
+//@   ensures [foreign-namespace-or-hard-key-refused-before-the-challenge] (param == nil || param.NamespacePolicy != "NONS" || param.Attrs.HardKey) ==>
+//@     (result != nil && calls(challengePubKey) == c0)
+//@   ensures [failed-challenge-is-an-authentication-error] (calls(challengePubKey) == c0 + 1 && ret(challengePubKey, c0, 0) != nil) ==> gensign.isErr(result, 3)
+//@   ensures calls(challengePubKey) <= c0 + 1
+//@   ensures result != nil ==> typeof(result) == *gensign.Error
